@@ -258,7 +258,9 @@ class InterpretedFunctionsRemover(engines.engine.Engine, CompilerMixin):
             if val in new_obj_vals[ifun_exp.interpreted_function()]:
                 o = new_obj_vals[ifun_exp.interpreted_function()][val]
             else:
-                o = Object(get_fresh_name(new_problem, f"_o_{kNum.name}"), kNum)
+                o = Object(
+                    get_fresh_name(new_problem, f"_o_{kNum.name}"), kNum, env
+                )
                 new_obj_vals[ifun_exp.interpreted_function()][val] = o
                 new_problem.add_object(o)
 
@@ -442,7 +444,9 @@ class InterpretedFunctionsRemover(engines.engine.Engine, CompilerMixin):
                                 p_n = get_fresh_parameter_name(
                                     a, f"_p_{ifun.name}_" + str(i)
                                 )
-                                new_param = up.model.Parameter(p_n, kNum)
+                                new_param = up.model.Parameter(
+                                    p_n, kNum, a.environment
+                                )
                                 new_params.append(new_param)
                                 IF_and_pars_and_timestamp_to_knum[
                                     (ifun, ifun_exp.args, t)
@@ -459,7 +463,9 @@ class InterpretedFunctionsRemover(engines.engine.Engine, CompilerMixin):
                                 p_n = get_fresh_parameter_name(
                                     a, f"_p_{ifun.name}_" + str(i)
                                 )
-                                new_param = up.model.Parameter(p_n, kNum)
+                                new_param = up.model.Parameter(
+                                    p_n, kNum, a.environment
+                                )
                                 new_params.append(new_param)
                                 IF_and_pars_to_knum[(ifun, ifun_exp.args)] = new_param
                             else:
